@@ -661,22 +661,29 @@ func (ex *exec) unop(fr *frame, instr *ssa.UnOp, x value) value {
 func (ex *exec) typeAssert(instr *ssa.TypeAssert, x value) value {
 	itf := ex.force(x.(iface))
 	var v value
-	err := ""
+	fail := 0
 	if itf.t == nil {
-		err = fmt.Sprintf("interface conversion: interface is nil, not %s", typeString(instr.AssertedType))
+		fail = 1
 	} else if idst, ok := instr.AssertedType.Underlying().(*types.Interface); ok {
 		v = itf
 		if !ex.implements(itf.t, idst) {
-			err = fmt.Sprintf("interface conversion: %v is not %v: missing method", typeString(itf.t), typeString(instr.AssertedType))
+			fail = 2
 		}
 	} else if identical(itf.t, instr.AssertedType) {
 		v = itf.v // extract value
 	} else {
-		err = fmt.Sprintf("interface conversion: interface {} is %s, not %s", typeString(itf.t), typeString(instr.AssertedType))
+		fail = 3
 	}
-	if err != "" {
+	if fail != 0 {
 		if !instr.CommaOk {
-			panic(runtimeError(err))
+			switch fail {
+			case 1:
+				panic(runtimeError(fmt.Sprintf("interface conversion: interface is nil, not %s", typeString(instr.AssertedType))))
+			case 2:
+				panic(runtimeError(fmt.Sprintf("interface conversion: %v is not %v: missing method", typeString(itf.t), typeString(instr.AssertedType))))
+			default:
+				panic(runtimeError(fmt.Sprintf("interface conversion: interface {} is %s, not %s", typeString(itf.t), typeString(instr.AssertedType))))
+			}
 		}
 		return tuple{zero(instr.AssertedType), false}
 	}
